@@ -1609,6 +1609,7 @@ def rule_one_scope_for_class_names(ctx, rep: Report, rid="T9"):
     helper = prog.find_method(ci, "_format_class_name")
     reads_parent = helper is not None and any(isinstance(a, ast.Attribute) and a.attr == "parent" for a in ast.walk(helper[1]))
     sites: List[Tuple[str, int, str, str]] = []
+    name_sites: List[Tuple[str, int, str, bool]] = []
     for c in prog.mro(ci):
         for mname, fn in sorted(c.methods.items()):
             fo = Folder(prog, c.mod, fn, c)
@@ -1621,9 +1622,16 @@ def rule_one_scope_for_class_names(ctx, rep: Report, rid="T9"):
                     continue
                 parts = t.parts
                 for i, p_ in enumerate(parts):
-                    if isinstance(p_, str) or i == 0 or not isinstance(parts[i - 1], str):
+                    if isinstance(p_, str) or i == 0:
                         continue
-                    before = parts[i - 1]
+                    if i + 1 < len(parts) and not isinstance(parts[i + 1], str):
+                        continue          # not the last slot of its run: the class component is the last one
+                    j = i
+                    while j > 0 and not isinstance(parts[j - 1], str):
+                        j -= 1
+                    if j == 0:
+                        continue
+                    before = parts[j - 1]
                     if not (before.endswith("ptr_") or before.endswith("ollector_")):
                         continue
                     e = inline_locals(fn, p_.expr)
@@ -1646,7 +1654,33 @@ def rule_one_scope_for_class_names(ctx, rep: Report, rid="T9"):
                     else:
                         fam = "other"
                     sites.append((mname, call.lineno, fam, txt[:60]))
-    # get_class_name is how generate_preamble obtains the name: resolve locals bound by tuple unpacking from it
+                    # the class component is the instantiated class's own name (for a parameter: at every call of this method)
+                    exprs = [(mname, call.lineno, txt)]
+                    if fam == "parameter":
+                        exprs = []
+                        for c2 in prog.mro(ci):
+                            for m2, f2 in sorted(c2.methods.items()):
+                                for k2 in walk_no_nested(f2):
+                                    if isinstance(k2, ast.Call) and isinstance(k2.func, ast.Attribute) and unparse(k2.func.value) == "self" and k2.func.attr == mname:
+                                        try:
+                                            b2 = bind_call(fn, k2, drop_self=True)
+                                        except AnalysisError:
+                                            continue
+                                        if e.id in b2:
+                                            exprs.append((m2, k2.lineno, unparse(inline_locals(f2, b2[e.id]))))
+                    for m3, ln3, t3 in exprs:
+                        if ".name" in t3:
+                            name_sites.append((m3, ln3, t3, ".original.name" not in t3))
+    seen_ns = set()
+    for m3, ln3, t3, ok3 in name_sites:
+        key3 = f"{m3}:{t3.replace(' ', '')[-40:]}"
+        if key3 in seen_ns:
+            continue
+        seen_ns.add(key3)
+        ordinal3 = sum(1 for x in seen_ns if x.startswith(m3 + ":"))
+        rep.add(rid, f"class names:{m3}:#{ordinal3}:the class component is the instantiated class's own name", ok3,
+                f"`{t3[:70]}` (line {ln3}): `.original.name` is the template's name (`MyFactor`), the collectors and the classdef are named after the "
+                f"instantiation (`MyFactorPosePoint2`)", f"{ci.mod.rel}:{ln3}", nontrivial=not ok3)
     fams = {}
     for mname, ln, fam, txt in sites:
         fams.setdefault(fam, []).append(f"{mname}@{ln}")
